@@ -66,6 +66,9 @@ func init() {
 					v.Cfg.NameOverrides[oc.TypeKey] = fmt.Sprintf("dbl%d_type", n)
 				}
 			}
+			if !v.File.HasDep() && rapid.Bool().Draw(t, "c14dep") {
+				gen.SplitDep(t, v.File, v.Cfg.Types)
+			}
 			rp := &Replay{Variants: []*pipeline.Variant{v}}
 			c := c14Case{Runs: 6}
 			for i := 0; i < 4; i++ {
@@ -126,6 +129,30 @@ func init() {
 				if msg, err := check(fmt.Sprintf("run %d of the same request", i), canon, ""); msg != "" || err != nil {
 					return msg, err
 				}
+			}
+			// a request that generates two files (the imported file of the package as well): the whole response,
+			// including the order of its files, must not depend on the run
+			if desc.DepFile(fd) != nil {
+				if err := os.WriteFile(filepath.Join(dir, "cfg.yaml"), []byte(canon), 0o644); err != nil {
+					return "", pipeline.Infra("write yaml: %v", err)
+				}
+				req := desc.MarshalRequest(desc.RequestAll(fd, "config=cfg.yaml"))
+				var first []byte
+				for i := 0; i < c.Runs+2; i++ {
+					res, err := tools.RunPlugin(req, dir)
+					if err != nil {
+						return "", err
+					}
+					if res.Exit != 0 || res.Resp == nil || res.Resp.Error != nil {
+						return fmt.Sprintf("request with two files to generate: plugin failed (exit %d): %s", res.Exit, tail(res.Stderr)), nil
+					}
+					if i == 0 {
+						first = res.Stdout
+					} else if !bytes.Equal(first, res.Stdout) {
+						return fmt.Sprintf("request with two files to generate: run %d gives another response (sha %s) than run 0 (sha %s): files %v vs %v", i, sha(res.Stdout), sha(first), respFiles(res), "see run 0"), nil
+					}
+				}
+				r.Class("two_files_to_generate")
 			}
 			for i, s := range c.YAMLSeeds {
 				if msg, err := check(fmt.Sprintf("YAML re-rendering %d (shuffled keys and set-like lists)", i), v.Cfg.YAML(shufflerFrom(s), nil), ""); msg != "" || err != nil {
@@ -392,6 +419,16 @@ func init() {
 			return "", nil
 		},
 	}
+}
+
+func respFiles(res *pipeline.PluginResult) []string {
+	var out []string
+	if res.Resp != nil {
+		for _, f := range res.Resp.File {
+			out = append(out, f.GetName())
+		}
+	}
+	return out
 }
 
 // ---------------------------------------------------------------- C15 (sort on)
